@@ -52,6 +52,7 @@ def jobs(tier, seed):
             js.append({"sub": "comb-cyclic", "I": I, "G": G, "chunk": i, "of": n})
         js.append({"sub": "comb-cyclic", "I": I, "G": G, "chunk": 0, "of": n, "hashseed": seeds[-1], "primary": False})
     js.append({"sub": "comb-bb", "chunk": 0, "of": 1})
+    js += [{"sub": "history", "chunk": i, "of": 4} for i in range(4)]
     na = 16 if tier == "quick" else 48
     for i in range(na):
         js.append({"sub": "assume", "chunk": i, "of": na, "nodes": b["assume_nodes"]})
@@ -65,6 +66,7 @@ def check_cnf(acc, c, case, site):
     """cnf(c) projected on node variables == consistent valuations of c."""
     import circuitgraph as cg
 
+    case["site"] = site
     acc.transitions += 1
     nodes = sorted(c.graph.nodes)
     try:
@@ -119,7 +121,7 @@ def check_solve(acc, c, case, site, want, assumption, answers):
         satref.set_policy(pol)
         acc.transitions += 1
         cc = dict(case)
-        cc.update(assumption=assumption, policy=list(pol))
+        cc.update(assumption=assumption, policy=list(pol), site=site)
         try:
             res = cg.sat.solve(c, dict(assumption))
         except Exception as e:  # noqa: BLE001
@@ -355,10 +357,75 @@ def run_alias(job, acc):
         acc.sample(case)
 
 
+# --- histories on ONE object: query, edit in place, query again ---------------------------------------------
+
+
+def apply_history(acc, desc, ops):
+    """ops: ["cnf"] | ["solve", A] | ["retype", g, t] | ["rewire", g, old, new] | ["mark", n, bool];
+    the LAST op (a query) is judged against the oracle for the object's current state."""
+    import circuitgraph as cg
+
+    c = space.build(desc)
+    for i, op in enumerate(ops):
+        last = i == len(ops) - 1
+        case = {"kind": "history", "desc": desc, "ops": ops}
+        try:
+            if op[0] == "retype":
+                c.set_type(op[1], op[2])
+            elif op[0] == "rewire":
+                c.disconnect(op[2], op[1])
+                c.connect(op[3], op[1])
+            elif op[0] == "mark":
+                c.set_output(op[1], op[2])
+            elif not last:
+                if op[0] == "cnf":
+                    cg.sat.cnf(c)
+                else:
+                    cg.sat.solve(c, dict(op[1]))
+            else:
+                want = check_cnf(acc, c, case, "history")
+                if want is not None and op[0] == "solve":
+                    check_solve(acc, c, case, "history", want, dict(op[1]), [("first",), ("last",)])
+        except Exception as e:  # noqa: BLE001
+            acc.violation("history", f"{op[0]}-raises:{common.exc_name(e)}", case, repr(e))
+            return
+
+
+def run_history(job, acc):
+    flip = {"and": "or", "or": "xor", "xor": "nand", "nand": "nor", "nor": "xnor", "xnor": "and", "buf": "not", "not": "buf"}
+    for _idx, gates in space.chunk(space.circuits(2, 2, types=("and", "xor", "nor", "not"), max_arity=2, min_gates=2), job["chunk"], job["of"]):
+        desc = space.to_desc(2, gates, outputs="sinks")
+        c = space.build(desc)
+        out = [n for n in sorted(c.graph.nodes) if c.graph.nodes[n].get("output")][0]
+        queries = [["cnf"], ["solve", {}], ["solve", {out: True}], ["solve", {out: False, "a": True}]]
+        edits = [["mark", "a", True]]
+        for g in ("g0", "g1"):
+            t = c.graph.nodes[g]["type"]
+            edits.append(["retype", g, flip[t]])
+            fi = sorted(c.graph.pred[g])
+            cands = [x for x in ("a", "b", "g0") if x != g and x not in fi and not (g == "g0" and x == "g0")]
+            if cands and fi and not (g == "g0" and cands[0] == "g1"):
+                edits.append(["rewire", g, fi[0], cands[0]])
+        for q1 in queries:
+            for e1 in edits:
+                for q2 in queries:
+                    acc.states += 1
+                    acc.nontrivial += 1
+                    apply_history(acc, desc, [q1, e1, q2])
+                for e2 in edits:
+                    if e2[0] != e1[0] or e2[1] != e1[1]:
+                        acc.states += 1
+                        apply_history(acc, desc, [q1, e1, e2, queries[1]])
+        acc.sample({"desc": desc, "ops": [queries[1], edits[1], queries[2]]})
+
+
 def run(job):
     common.setup_paths()
     acc = Acc(job)
     sub = job["sub"]
+    if sub == "history":
+        run_history(job, acc)
+        return acc.result()
     if sub == "gate":
         run_gate(job, acc)
     elif sub in ("comb-acyclic", "comb-cyclic"):
@@ -375,10 +442,14 @@ def run(job):
 def replay(case, job):
     common.setup_paths()
     acc = Acc(job)
+    if case.get("kind") == "history":
+        apply_history(acc, case["desc"], case["ops"])
+        return acc.result()
+    site = case.get("site", case.get("kind", "comb"))
     c = space.build(case["desc"])
-    want = check_cnf(acc, c, case, case.get("kind", "comb"))
+    want = check_cnf(acc, c, dict(case), site)
     if want is not None:
         a = case.get("assumption", {})
         pol = [tuple(case["policy"])] if case.get("policy") else ANSWERS_MANY
-        check_solve(acc, c, case, case.get("kind", "comb"), want, a, pol)
+        check_solve(acc, c, dict(case), site, want, a, pol)
     return acc.result()
